@@ -40,6 +40,10 @@ CHECKS = {
              text="Invariants at every Start (running <= -j, per-pool <= depth, console 1, running <= tokens held, started once), at every Wait (no startable command while a slot is free and budget lasts), at Exit on every path (tokens in the FIFO = initial, never 'stuck'); termination by a watchdog on each invocation."),
  "C07": dict(cat="fault_enumeration", ref="6.C07", tech="named crash points (VERIF_CRASH_POINT hooks) x passage number and interrupts at every wait, enumerated from Families.tla; each invocation of the real classes is a forked process that dies at the point; recovery builds validated by TLC against NinjaRef!CleanContent and the interrupt clauses",
              text="Fault enumeration over the crash points between every two persistence steps of FinishCommand/RecordCommand/RecordDeps and over interrupts, with orphaned commands completing or not; the recovery build must succeed and leave the needed closure equal to a clean build; after an interrupt: status 130, lock file gone, modified outputs (all outputs of depfile commands) gone."),
+ "C10": dict(cat="model_checking", ref="6.C10", tech="metamorphic twin scenarios (discovered dependencies vs the same written as implicit inputs) generated from Families.tla, both run on the real engine; TLC trace validation compares commands, results and final contents per invocation (RefTrace.tla twin monitor)",
+             text="For every scenario with depfile / deps=gcc / deps=msvc dependencies (sources or generated, with or without a manifest path) and every change set and schedule, the run must start the same commands, end the same way and leave the same contents as the declared twin; ordering of generated headers is checked by the C04 monitor on the same traces. KF-DEPS-SKIPPED is reported by signature."),
+ "C11": dict(cat="model_checking", ref="6.C11", tech="metamorphic twin scenarios (dyndep file vs its information inlined in the manifest) over dyndep graph shapes from Families.tla, all completion orders on the real engine, TLC trace validation of the twin monitor",
+             text="Dyndep files that exist or are produced during the build (clean or dirty producer, shared, two levels, extra order-only inputs, discovered inputs/outputs/restat): same commands, result and final contents as the inlined twin for every history and schedule.  (Invalid dyndep files: see the evidence field 'invalid_variants'.)"),
 }
 
 NOT_YET = "check not built yet (work in progress; see DESIGN.md section 9)"
